@@ -86,6 +86,9 @@ def op_menu(kind, scheme):
         for name in ("add", "sub", "mul"):
             for variant in ("fwd", "refl", "inplace"):
                 ops.append(["bin", name, variant, o])
+    for name in ("add", "sub", "mul"):
+        for variant in ("fwd", "inplace"):
+            ops.append(["bin", name, variant, ["self"]])      # a + a, a -= a, a *= a: both operands are the same object
     for k in (1, 2, 3):
         ops.append(["pow", k, False])
     ops.append(["pow", 2, True])
@@ -180,12 +183,17 @@ def step(hist):
                 oref = np.full(8, float(od[1]))
                 odeg = 0
                 otype = None
+            elif od[0] == "self":
+                operand = cur
+                oref = table.copy()
+                odeg = selfdeg
+                otype = cur_type
             else:
                 operand, OD = make_leaf(kind, scheme, od[1], od[2])
                 oref = rp.tt(OD, labels, spin)
                 odeg = formal_degree(OD)
                 otype = type(operand).__name__ if od[1] != "dict" else None
-            operand_before = snap(operand)
+            operand_before = snap(operand) if operand is not cur else None
             if name == "add":
                 ref = table + oref
             elif name == "sub":
@@ -277,7 +285,7 @@ def step(hist):
                 v("type", "result type %s, expected %s" % (type(res).__name__, expect_types))
             elif must_be_same_obj and res is not cur:
                 v("inplace-new-object", "in-place operator returned a different object")
-            elif not must_be_same_obj and (res is cur or res is operand):
+            elif not must_be_same_obj and (res is cur or (res is operand and operand is not None and isinstance(operand, dict))):
                 v("aliased-result", "operator returned one of its operands")
             else:
                 if not isinstance(res, dict) or any(l not in labels for k in res for l in k):
@@ -323,7 +331,7 @@ def step(hist):
 def _opclass(op):
     if op[0] == "bin":
         od = op[3]
-        return "%s-%s(%s)" % (op[1], op[2], "number" if od[0] == "num" else od[1])
+        return "%s-%s(%s)" % (op[1], op[2], "number" if od[0] == "num" else ("self" if od[0] == "self" else od[1]))
     if op[0] == "pow":
         return "pow%s" % ("-inplace" if op[2] else "")
     if op[0] == "div":
